@@ -7,4 +7,4 @@ T=$(mktemp -d /tmp/lucref.XXXXXX); trap 'rm -rf "$T"' EXIT
 if ! (cd "$T" && git apply --whitespace=nowarn "$D/patch.diff" 2>"$T/.ap"); then echo "APPLY-FAIL $(head -2 $T/.ap)"; exit 3; fi
 if ! (cd "$T" && go build ./... 2>"$T/.b"); then echo "BUILD-FAIL"; exit 4; fi
 echo "suite: $(/verif/tools/repotest.sh "$T" | head -1)"
-/verif/bin/lucheck -repo "$T" -verif /verif -property all -no-evidence 2>&1 | sed "s#$T/##g" | grep -E "^VIOLATION|^  rule=|^ERROR" | sed 's#replay=[^ ]*##'
+${LUCHECK:-/verif/bin/lucheck} -repo "$T" -verif /verif -property all -no-evidence 2>&1 | sed "s#$T/##g" | grep -E "^VIOLATION|^  rule=|^ERROR" | sed 's#replay=[^ ]*##'
